@@ -12,7 +12,7 @@
 //
 // Protocol (fields separated by one space; byte strings hex, "-" = empty string):
 //
-//	req <srvT> <cih> <strict> <hT> <omit> <remote> <tls> <host> <hdrs> <tbl> <fails> <hops> <mode>
+//	req <srvT> <cih> <strict> <hT> <omit> <remote> <tls> <host> <hdrs> <tbl> <fails> <hops> <mode> <lb>
 //
 //	srvT   nil | . | cidr,cidr,…      server trusted_proxies (nil = not configured, . = []);
 //	       dyn:. | dyn:cidr,…         the same ranges served by a request-scoped IPRangeSource module:
@@ -36,10 +36,12 @@
 //	hops   0|1|2                      reverse_proxy request header ops (header_up): none | set an unrelated
 //	                                  field from an upstream placeholder | delete X-Forwarded-Host
 //
+//	lb     0|1|2                      reverse_proxy selection policy: default | client_ip_hash over three
+//	                                  upstreams (oracle only) | cookie (answer field ck = Secure attribute)
 //	mode   0|1                        0 GET over HTTP/1.1, 1 websocket over HTTP/2 (extended CONNECT,
 //	                                  `:protocol: websocket`): ServeHTTP rewrites the prepared request
 //
-// Answer: "ip=<hex> tp=<0|1> ph=<hex> lg=<hex> cm=<0|1> rm=<0|1> pp=<hex>/<port>|invalid xff=<H> xfp=<H> xfh=<H>"
+// Answer: "ip=<hex> tp=<0|1> ph=<hex> lg=<hex> cm=<0|1> rm=<0|1> pp=<hex>/<port>|invalid ck=<0|1|-> xff=<H> xfp=<H> xfh=<H>"
 //
 //	ph = {http.vars.client_ip}, lg = access-log field request.client_ip, cm / rm = the real client_ip /
 //	remote_ip matchers over srvT ++ hT ++ fixedRanges, pp = the PROXY-protocol address reverse_proxy
@@ -87,6 +89,8 @@ type obs struct {
 	sent      bool
 	out       http.Header    // the attempt that succeeded (the last one)
 	attempts  []http.Header  // every attempt handed to the transport, in order
+	upstreams []string       // … and the upstream each one was directed to
+	cookie    string         // Secure attribute of the sticky cookie(s): "1", "0", "mixed", "-" (none set)
 	failLeft  int            // round trips that still have to fail (upstream "down")
 	dynRanges []netip.Prefix // what the request-scoped IPRangeSource answers for this request
 	outHost   string
@@ -159,6 +163,7 @@ func (Capture) CaddyModule() caddy.ModuleInfo {
 func (Capture) RoundTrip(req *http.Request) (*http.Response, error) {
 	if o, ok := req.Context().Value(obsKey{}).(*obs); ok {
 		o.attempts = append(o.attempts, req.Header.Clone())
+		o.upstreams = append(o.upstreams, req.URL.Host)
 		if o.failLeft > 0 {
 			o.failLeft--
 			return nil, errUpstreamDown // reverse_proxy retries (GET, load_balancing.retries)
@@ -228,6 +233,7 @@ type kase struct {
 	hdrs    []hdrField
 	tbl     string // as given on the line ("" when the line is being built)
 	fails   int    // 0..2 round trips fail before one succeeds (proxy retry loop)
+	lb      int    // load-balancing policy: 0 default, 1 client_ip_hash over three upstreams, 2 cookie
 	mode    int    // 0 plain GET over HTTP/1.1, 1 websocket over HTTP/2 (extended CONNECT with :protocol)
 	hops    int    // request header ops of reverse_proxy: 0 none, 1 set an unrelated field, 2 delete X-Forwarded-Host
 }
@@ -315,14 +321,14 @@ func (k *kase) line() string {
 	if k.early {
 		tl = 3
 	}
-	return fmt.Sprintf("req %s %s %d %s %s %s %d %s %s %s %d %d %d",
+	return fmt.Sprintf("req %s %s %d %s %s %s %d %s %s %s %d %d %d %d",
 		k.srvField(), listField(k.cih, k.cihNil, true), k.strict,
-		listField(k.hT, false, false), omit, core.Hex(k.remote), tl, core.Hex(k.host), hd, k.table(), k.fails, k.hops, k.mode)
+		listField(k.hT, false, false), omit, core.Hex(k.remote), tl, core.Hex(k.host), hd, k.table(), k.fails, k.hops, k.mode, k.lb)
 }
 
 func parseLine(line string) (*kase, bool) {
 	f := strings.Fields(line)
-	if len(f) != 14 || f[0] != "req" {
+	if len(f) != 15 || f[0] != "req" {
 		return nil, false
 	}
 	k := &kase{}
@@ -392,6 +398,12 @@ func parseLine(line string) (*kase, bool) {
 		}
 	}
 	k.tbl = f[10]
+	switch f[14] {
+	case "0", "1", "2":
+		k.lb = int(f[14][0] - '0')
+	default:
+		return nil, false
+	}
 	switch f[13] {
 	case "0":
 	case "1":
@@ -631,7 +643,7 @@ func (k *kase) cfgKey() string {
 		srv = "dyn" // one provisioned server serves every range set
 	}
 	return fmt.Sprintf("%s|%s|%d|%s|%v|%d", srv, listField(k.cih, k.cihNil, true), k.strict,
-		listField(k.hT, false, false), k.omit, k.hops)
+		listField(k.hT, false, false), k.omit, k.hops*10+k.lb)
 }
 
 func (p *prop) server(k *kase) (*caddyhttp.Server, error) {
@@ -673,6 +685,13 @@ func (p *prop) server(k *kase) (*caddyhttp.Server, error) {
 		"upstreams": []any{map[string]any{"dial": "127.0.0.1:9"}},
 		// a failed round trip of a GET is retried at once, up to 3 times
 		"load_balancing": map[string]any{"retries": 3},
+	}
+	switch k.lb {
+	case 1:
+		rp["upstreams"] = []any{map[string]any{"dial": "127.0.0.1:9"}, map[string]any{"dial": "127.0.0.1:10"}, map[string]any{"dial": "127.0.0.1:11"}}
+		rp["load_balancing"] = map[string]any{"retries": 3, "selection_policy": map[string]any{"policy": "client_ip_hash"}}
+	case 2:
+		rp["load_balancing"] = map[string]any{"retries": 3, "selection_policy": map[string]any{"policy": "cookie", "name": "lb"}}
 	}
 	switch k.hops {
 	case 1:
@@ -785,6 +804,18 @@ func (p *prop) serve(k *kase, hdrs []hdrField) (string, *obs, error) {
 	if !o.probed {
 		return "noprobe status=" + strconv.Itoa(w.Code), o, nil
 	}
+	o.cookie = "-"
+	for _, c := range w.Header()["Set-Cookie"] {
+		v := "0"
+		if strings.Contains(c, "; Secure") {
+			v = "1"
+		}
+		if o.cookie == "-" {
+			o.cookie = v
+		} else if o.cookie != v {
+			o.cookie = "mixed"
+		}
+	}
 	lg := "none"
 	if o.logHas {
 		lg = core.Hex(o.logIP)
@@ -799,7 +830,7 @@ func (p *prop) serve(k *kase, hdrs []hdrField) (string, *obs, error) {
 		}
 	}
 	head := "ip=" + core.Hex(o.clientIP) + " tp=" + b01(o.trusted) + " ph=" + core.Hex(o.placeh) + " lg=" + lg +
-		" cm=" + b01(o.matchedIP) + " rm=" + b01(o.remoteHit) + " pp=" + pp
+		" cm=" + b01(o.matchedIP) + " rm=" + b01(o.remoteHit) + " pp=" + pp + " ck=" + o.cookie
 	if !o.sent {
 		if w.Code == 500 {
 			return head + " err", o, nil
